@@ -140,7 +140,8 @@ def rec_str(data):
 
 
 def mol_str(m):
-    atoms = ','.join(f'{n}:{a.atomic_number}:{opt(a.isotope)}:{a.charge}' for n, a in m._atoms.items())
+    atoms = ','.join(f'{n}:{a.atomic_number}:{opt(a.isotope)}:{a.charge}:{opt(a.implicit_hydrogens)}:{int(bool(a.is_radical))}'
+                     for n, a in m._atoms.items())
     adj = ';'.join(f'{n}>' + ','.join(f'{k}:{int(b)}' for k, b in ms.items()) for n, ms in m._bonds.items())
     return f'{atoms} {adj}'
 
